@@ -33,6 +33,14 @@ CHECKS = {
    technique='deterministic simulation with fault injection: real cli_main() on an in-memory file system; enumeration of crash points (AssemblerError / foreign exception at entry+exit of each of the 17 passes, line-granular teardown inside assemble() via sys.settrace), planted faulty lines per pass, pre-existing output files, option matrix; outputs compared with the API and an independent Intel HEX reader',
    text='Every pass x entry/exit x exception kind is enumerated over several programs and option sets; line-level crash points are swept exhaustively for 40 programs (thorough) and sampled (quick); natural failures come from faulty lines planted so that each pass that can fail does. Success runs are compared byte-for-byte with asm.assemble() on the same snapshot, the -l file with the API labels, the .hex file through an independent decoder.',
    note='Trusted: SimFS models the os/open subset faithfully (a sample is cross-checked on the real FS); crash points are confined to assemble() and CLI validation; write-phase I/O faults are reported as observations only.'),
+ 'C14': dict(engine='simfs', category='exploration', ref='3.5',
+   technique='deterministic simulation: generated include trees on an in-memory file system assembled under every cwd x path-spelling x -i-spelling x compress combination (API and CLI), with same-named decoy files as injected environment faults; oracle = independent reference splicer + assembly of the flattened file',
+   text='Seeded search over include trees (depth 0-4, adjacent/sub/parent/-i placement, same file twice, ambiguous twins, decoys) each assembled under 32 API variants and 4 CLI variants; result must equal the flattened program under some admissible choice and be identical across variants.',
+   note='Trusted: the 40-line reference splicer (documented include syntax at column 0) and SimFS. The flattened text is assembled by the same assembler, so C14 says nothing about whether the bytes are right (C01-C09).'),
+ 'C10': dict(engine='simfs', category='exploration', ref='3.7',
+   technique='deterministic simulation of the include_bytes I/O clause: blobs and same-named decoys placed relative to several simulated working directories on an in-memory file system, API and CLI, TOCTOU size/content faults as observations; reference packer oracle; value/string clauses enumerated as riding workload',
+   text='Seeded search over blob placement x cwd x decoys x content kinds, each tree assembled from three working directories and through the CLI and compared with an independent reference image; boundary values for every directive/format are enumerated exhaustively ({min-1..umax+1} per width), strings sampled over ASCII/escapes/Latin-1/BMP/astral.',
+   note='Only the include_bytes clause is a genuine simulation target; the value and string clauses are pure functions of the text and are enumerated as workload (DESIGN.md 3.7 says so openly). Trusted: sim/refpack.py (int.to_bytes, hand-written escape/UTF-8 code).'),
 }
 
 def main():
